@@ -895,8 +895,8 @@ impl World {
                     _ => {}
                 }
                 if let Some(rr) = self.follow_reload.take() {
-                    if op.get("then").is_none() && !self.reps[rr].m.as_ref().map(|m| any_staged(m)).unwrap_or(true) {
-                        self.op_reload(rr);
+                    if op.get("then").is_none() {
+                        self.op_reload_after_commit(rr);
                     }
                 }
             }
@@ -1223,6 +1223,11 @@ impl World {
         let read_after = read_res(m);
         if read_after != read_before {
             fails.push(("C12", format!("commit changed the visible document: before {} after {}", js(&read_before), js(&read_after))));
+            if had_arr_conf {
+                // the commit resolved array conflicts automatically: what the merge showed (every element of every
+                // concurrent version) must be what the array holds afterwards
+                fails.push(("C06", format!("the automatic resolution of an array conflict at commit changed the merged array: before {} after {}", js(&read_before), js(&read_after))));
+            }
         }
         if res.as_ref().map(|x| x.is_some()).unwrap_or(false) && !self.reps[r].dirty {
             let a: Vec<String> = m.get_anchors().iter().map(|x| x.to_string()).collect();
@@ -1415,6 +1420,37 @@ impl World {
         }
         let cls = if res.is_ok() { "ok" } else { "err" };
         self.emit("reload", r, cls, json!({}));
+        for (p, w) in fails {
+            self.fail(p, w);
+        }
+    }
+
+    /// C12 right after a SUCCESSFUL commit whose result a fresh replica does not reproduce: the committing replica has
+    /// applied everything its storage holds and has nothing staged any more, so a reload must succeed and must not
+    /// change what it shows (a commit that leaves object bodies staged makes every later reload refuse)
+    fn op_reload_after_commit(&mut self, r: usize) {
+        let m = self.reps[r].m.as_ref().unwrap();
+        if m.has_staging() {
+            return;
+        }
+        let read_before = read_res(m);
+        let res = m.reload();
+        let m = self.reps[r].m.as_ref().unwrap();
+        let mut fails: Vec<(&str, String)> = vec![];
+        match &res {
+            Err(e) => {
+                let w = format!("reload right after a successful commit, with nothing new in storage, failed ({}): the document the replica shows cannot be rebuilt from its storage", msg_prefix(&e.to_string()));
+                fails.push(("C12", w.clone()));
+                fails.push(("C03", w));
+            }
+            Ok(()) => {
+                if read_res(m) != read_before {
+                    fails.push(("C12", "reload right after a successful commit, with nothing new in storage, changed the visible document".into()));
+                }
+                self.reps[r].dirty = false;
+            }
+        }
+        self.emit("reload", r, if res.is_ok() { "ok" } else { "err" }, json!({}));
         for (p, w) in fails {
             self.fail(p, w);
         }
@@ -3383,10 +3419,14 @@ pub fn gen_op(w: &World, g: &mut Rng, sim_faults: bool) -> Value {
                 let doc_objs: Vec<String> = m.get_all_objects().into_iter().filter(|u| !u.starts_with('^') && u != "\u{221A}" && !u.starts_with('k')).collect();
                 let uuid: String = if !doc_objs.is_empty() && g.chance(1, 3) { g.pick(&doc_objs).clone() } else { g.pick(&["k0", "k1", "k2"]).to_string() };
                 let call = *g.pick(&["create", "update", "update", "remove"]);
-                let obj = match g.below(4) {
+                let obj = match g.below(6) {
                     0 => json!({}),
                     1 => json!({"n": g.below(3)}),
                     2 => json!({"s": *g.pick(&special_strings())}),
+                    // the object in the shape `read` hands it out (with its identifier), and a hash field of a wrong
+                    // type: `digest_object` refuses both - an error, never an abort (D26)
+                    3 => json!({"_id": uuid.clone(), "n": g.below(3)}),
+                    4 => json!({"#": [1], "n": 1}),
                     _ => json!({"n": 1, "nested": {"a": [1, 2]}}),
                 };
                 json!({"op": "objapi", "r": r, "call": call, "uuid": uuid, "obj": obj})
